@@ -37,6 +37,8 @@ scalar = st.one_of(
     st.integers(1, 9),
     gen.floats(0.1, 50.0),
     st.sampled_from([2, 0.5, 3.0, 4.0, 8, 0.25]),
+    # extreme magnitudes (exact powers of two): sampled estimates must not depend on the overall scale
+    st.sampled_from([2.0**-40, 2.0**40, 2.0**-20, 2.0**30]),
 )
 
 
@@ -284,6 +286,7 @@ def run_case(case) -> list[Result]:
     ok, v = ck.call(lambda: a == a, f"eq:{kind}:reflexive")
     if ok:
         ck.expect(v is True or v == True, f"eq:{kind}:reflexive", f"a == a gave {v!r}")  # noqa: E712
+    twin = None
     ok, twin = ck.call(_build, f"build:{kind}", kind, copy.deepcopy(a_case))
     ok, v = ck.call(lambda: a == twin, f"eq:{kind}:copy")
     if ok:
@@ -469,6 +472,23 @@ def run_case(case) -> list[Result]:
                     good &= _same(_arrays(kind, item), _select_patches(ea, slice(i, i + 1)))
             ck.expect(good, f"iter(patches):{kind}:values", f"len {len(lst)} vs {npatch}")
         ck.raises(lambda: a.patches[npatch], f"patches[]:{kind}:accepts-out-of-range")
+
+    # ---------------- purity: indexing, sampling, get_array(), comparisons and arithmetic with
+    # other operands must not have modified the container; a second evaluation gives the same result
+    if kind in ("PatchedCounts", "PatchedSumWeights", "NormalisedCounts"):
+        ck.call(a.get_array, f"get_array:{kind}")
+    ls_nodr = kind == "CorrFunc" and "rr" in a_case["present"] and "dr" not in a_case["present"]
+    if kind != "CorrData" and not ls_nodr:
+        sampler = (lambda o: o.sample()) if kind == "CorrFunc" else (lambda o: o.sample_patch_sum())
+        with np.errstate(all="ignore"):
+            ok1, r1 = ck.call(sampler, f"sample:{kind}", a)
+            ok2, r2 = ck.call(sampler, f"sample:{kind}", a)
+            ok3, r3 = ck.call(sampler, f"sample:{kind}", twin) if twin is not None else (False, None)
+        if ok1 and ok2:
+            ck.expect(np.array_equal(r1.data, r2.data, equal_nan=True) and np.array_equal(r1.samples, r2.samples, equal_nan=True), f"purity:{kind}:second-evaluation-differs")
+        if ok1 and ok3:
+            ck.expect(np.array_equal(r1.data, r3.data, equal_nan=True) and np.array_equal(r1.samples, r3.samples, equal_nan=True), f"purity:{kind}:used-container-differs-from-fresh-twin")
+    ck.expect(_same(_arrays(kind, a), ea), f"purity:{kind}:container-modified-by-read-operations")
 
     # ---------------- shape mismatches are rejected at construction
     if kind == "PatchedCounts":
